@@ -171,9 +171,9 @@ int main (int argc, char **argv)
 				Ns [nN++] = -1 ; Ns [nN++] = -1 ;				/* random */
 				if (vh_thorough) { Ns [nN++] = -2 ; Ns [nN++] = -2 ; Ns [nN++] = -1 ; Ns [nN++] = -1 ; }
 				if (ch > 64) nN = 8 ;
-				for (k = 0 ; k < nN ; k++) for (g = 0 ; g < (vh_thorough ? G_N : 1) ; g++)
+				for (k = 0 ; k < nN ; k++) for (g = 0 ; g < (vh_thorough ? G_N : 3) ; g++)
 				{	if (!vh_case ("%s/%s ch=%d %s Nidx=%d g=%d", vh_fname (format), vh_endname (format), ch, vh_tname [t], k, g)) continue ;
-					{	long N = Ns [k] ; int gen = vh_thorough ? g : (int) ((vh_case_idx + vh_seed0) % G_N) ;
+					{	long N = Ns [k] ; int gen = vh_thorough ? g : (int) ((vh_case_idx / 3 + vh_seed0 + 2 * g) % G_N) ;
 						if (N == -1) N = vh_rint (ch > 8 ? 300 : 9000) ; else if (N == -2) N = vh_rint (ch > 8 ? 3000 : 200000 / ch) ;
 						if (ch > 64 && N > 40) N = 40 ;
 						vh_distinct (vh_fnv (0, &format, 4) ^ (ch * 1315423911u) ^ ((uint64_t) t << 40) ^ ((uint64_t) N << 8) ^ ((uint64_t) gen << 56)) ;
